@@ -4,7 +4,9 @@
         links = op,operand;...   cttab = op,a,b,t|f;...   cmptab = op,a,b,res;...
         truthtab = v,t|f|x<exn>;...   loud = v,v,...     True = value 2, False = value 5
    answer: <nodes> | <obs trace of the folded chain> | <outcome> | <obs trace of the reference> | <outcome>
-        nodes = node&node...   node = B0 | B1 | C<id>(op.id,op.id...) *)
+        nodes = node&node...   node = B0 | B1 | C<id>(op.id,op.id...)
+   notfold <tail_fix> <e0> <links> <cttab> <cmptab> <truthtab> <loud>      not (<chain>): _handle_NotNode
+        nodes = N(nodes) when the NotNode is kept *)
 
 let split c s = if s = "" || s = "-" then [] else String.split_on_char c s
 let zs = z_of_string
@@ -75,6 +77,16 @@ let handle = function
     let (t2, o2) = obs loud (ref_cascade cmp truth (plain c)) in
     String.concat "&" (List.map str_node nodes) ^ " | " ^ str_trace t1 ^ " | " ^ str_out o1
     ^ " | " ^ str_trace t2 ^ " | " ^ str_out o2
+  | ["notfold"; tf; e0; links; ct; cm; tt; ld] ->
+    let c = (parse_fop e0, parse_links links) in
+    let ct = parse_cttab ct and cmp = parse_cmptab cm and truth = parse_truthtab tt
+    and loud = parse_loud ld in
+    let ns = fold ct (bs tf) false c in
+    let str_ns l = String.concat "&" (List.map str_node l) in
+    let st = (match handle_not ns with NPlain l -> str_ns l | NNot l -> "N(" ^ str_ns l ^ ")") in
+    let (t1, o1) = obs loud (run_not cmp truth vbool ct (bs tf) c) in
+    let (t2, o2) = obs loud (ref_not cmp truth vbool ct (bs tf) c) in
+    st ^ " | " ^ str_trace t1 ^ " | " ^ str_out o1 ^ " | " ^ str_trace t2 ^ " | " ^ str_out o2
   | _ -> "!ERR badcmd"
 
 let () = main_loop handle
